@@ -66,18 +66,23 @@ def build(prop_files):
         rc, out = sh('python3 tools/translate.py %s/ansi_string coq/Gen' % SRC)
         info['translate'] = out.strip().split('\n')[-1] if out.strip() else ''
         info['translate_ok'] = (rc == 0)
-        if rc != 0:
-            info['errors'].append('translator: ' + info['translate'])
+        translate_failed = (rc != 0)
+        # the translator itself is cross-checked against the imported module (exhaustive, tables are finite)
+        rct, outt = sh('PYTHONPATH=%s /venv/bin/python -m harness.tablecheck' % SRC)
+        info['tablecheck'] = [l for l in outt.strip().split('\n') if l.startswith('TABLECHECK')][:8]
+        tablecheck_failed = (rct != 0) and not translate_failed
         if not os.path.exists(os.path.join(COQ, 'Makefile.coq')) or \
                 os.path.getmtime(os.path.join(COQ, '_CoqProject')) > os.path.getmtime(os.path.join(COQ, 'Makefile.coq')):
             sh('coq_makefile -f _CoqProject -o Makefile.coq', cwd=COQ)
         os.makedirs(os.path.join(ROOT, 'build', 'ocaml'), exist_ok=True)
         rc, out = sh('timeout 3000 make -k -f Makefile.coq -j12', cwd=COQ)
         info['make_ok'] = (rc == 0)
+        make_errors = []
         if rc != 0:
             errs = re.findall(r'File "\./([^"]+)", line (\d+)[^\n]*\n((?:(?!File ").*\n){0,12})', out)
-            for f, ln, msg in errs[:8]:
-                info['errors'].append('%s:%s: %s' % (f, ln, ' '.join(msg.split())[:400]))
+            for f, ln, msg in errs:
+                make_errors.append((f, '%s:%s: %s' % (f, ln, ' '.join(msg.split())[:400])))
+        info['errors_outside_cone'] = []
         # the extracted driver
         rc2, out2 = sh('make driver SRC=%s/ansi_string' % SRC) if info['make_ok'] else (0, '')
         if not os.path.exists(os.path.join(ROOT, 'build', 'ocaml', 'driver')):
@@ -90,6 +95,13 @@ def build(prop_files):
         for pf in prop_files:
             cone = deps_of(pf)
             info['cone'] = sorted(set(info['cone']) | set(cone))
+            # only what lies in this property's dependency cone can break it
+            if translate_failed and any(c.startswith('Gen/') for c in cone):
+                info['errors'].append('translator: ' + info['translate'])
+            if tablecheck_failed and any(c.startswith('Gen/') for c in cone):
+                info['errors'].append('generated tables differ from the imported module: ' + '; '.join(info['tablecheck'])[:600])
+            for f, msg in make_errors:
+                (info['errors'] if f in cone else info['errors_outside_cone']).append(msg)
             src = open(os.path.join(COQ, pf)).read()
             theorems = re.findall(r'^\s*(?:Theorem|Corollary)\s+(\w+)', strip_comments(src), re.M)
             gen_obl = []
@@ -136,6 +148,6 @@ def build(prop_files):
         fcntl.flock(lock, fcntl.LOCK_UN)
         lock.close()
     info['wall_s'] = round(time.time() - t0, 1)
-    info['proof_ok'] = (info['translate_ok'] and not info['errors'] and not info['forbidden']
+    info['proof_ok'] = (not info['errors'] and not info['forbidden']
                         and not info['axioms_reported'] and info['discharged'] == info['obligations'] and info['obligations'] > 0)
     return info
